@@ -1087,4 +1087,157 @@ theorem verify_project (T : MJ) (wf : T.WF) (nd : T.digests.Nodup) (ndm : T.allM
   simp only [hshape, hdup, Bool.not_true, Bool.false_eq_true, if_false, hp, Bool.false_and]
   cases T.project (sel tbl) <;> rfl
 
+/-! ### tables made of a tree's own disclosures -/
+
+/-- the table for a selection of disclosures, each with its salt -/
+def tblOf (sub : List (SDisc × J)) : List (String × J) := sub.map (fun p => (p.1.digest, discJ p.2 p.1))
+
+theorem lookup_tblOf_some : (sub : List (SDisc × J)) → (g : String) → (j : J) → lookup (tblOf sub) g = some j →
+    ∃ p ∈ sub, p.1.digest = g ∧ j = discJ p.2 p.1
+  | [], g, j, h => by simp [tblOf, lookup] at h
+  | p :: r, g, j, h => by
+    simp only [tblOf, List.map_cons, lookup] at h
+    split at h
+    · rename_i he
+      simp only [Option.some.injEq] at h
+      exact ⟨p, by simp, he.symm, h.symm⟩
+    · obtain ⟨q, hq, h1, h2⟩ := lookup_tblOf_some r g j h
+      exact ⟨q, by simp [hq], h1, h2⟩
+
+theorem lookup_tblOf_none : (sub : List (SDisc × J)) → (g : String) → (∀ p ∈ sub, p.1.digest ≠ g) →
+    lookup (tblOf sub) g = none
+  | [], _, _ => rfl
+  | p :: r, g, h => by
+    have h1 : g ≠ p.1.digest := fun e => h p (by simp) e.symm
+    simp only [tblOf, List.map_cons, lookup, h1, if_false]
+    exact lookup_tblOf_none r g (fun q hq => h q (by simp [hq]))
+
+theorem lookup_tblOf_mem : (sub : List (SDisc × J)) → (p : SDisc × J) → p ∈ sub →
+    (lookup (tblOf sub) p.1.digest).isSome = true
+  | [], p, h => by simp at h
+  | q :: r, p, h => by
+    simp only [tblOf, List.map_cons, lookup]
+    split
+    · rfl
+    · simp only [List.mem_cons] at h
+      rcases h with rfl | h
+      · rename_i hne; exact absurd rfl hne
+      · exact lookup_tblOf_mem r p h
+
+/-- what a table of own disclosures selects -/
+theorem sel_tblOf (sub : List (SDisc × J)) (g : String) :
+    sel (tblOf sub) g = sub.any (fun p => p.1.digest = g) := by
+  apply Bool.eq_iff_iff.mpr
+  simp only [sel, List.any_eq_true, decide_eq_true_eq]
+  constructor
+  · intro h
+    cases hl : lookup (tblOf sub) g with
+    | none => simp [hl] at h
+    | some j =>
+      obtain ⟨p, hp, e, _⟩ := lookup_tblOf_some sub g j hl
+      exact ⟨p, hp, e⟩
+  · rintro ⟨p, hp, rfl⟩
+    exact lookup_tblOf_mem sub p hp
+
+mutual
+/-- the names in the disclosures of a conformant tree are not reserved -/
+theorem MJ.discs_key_ok : (T : MJ) → T.WF → ∀ e ∈ T.discs, ∀ k, e.key = some k → k ≠ "_sd" ∧ k ≠ "..."
+  | .leaf _, _, e, h => by simp [MJ.discs] at h
+  | .arr xs, wf, e, h => by
+    simp only [MJ.WF] at wf
+    exact MElems.discs_key_ok xs wf e (by simpa [MJ.discs] using h)
+  | .obj ms _, wf, e, h => by
+    simp only [MJ.WF] at wf
+    exact MMems.discs_key_ok ms wf.1 e (by simpa [MJ.discs] using h)
+theorem MElems.discs_key_ok : (xs : MElems) → xs.WF → ∀ e ∈ xs.discs, ∀ k, e.key = some k → k ≠ "_sd" ∧ k ≠ "..."
+  | .nil, _, e, h => by simp [MElems.discs] at h
+  | .clear x r, wf, e, h => by
+    simp only [MElems.WF] at wf
+    simp only [MElems.discs, List.mem_append] at h
+    rcases h with h | h
+    · exact MJ.discs_key_ok x wf.1 e h
+    · exact MElems.discs_key_ok r wf.2 e h
+  | .marked dg x r, wf, e, h => by
+    simp only [MElems.WF] at wf
+    simp only [MElems.discs, List.mem_cons, List.mem_append] at h
+    rcases h with rfl | h | h
+    · intro k hk; simp at hk
+    · exact MJ.discs_key_ok x wf.1 e h
+    · exact MElems.discs_key_ok r wf.2 e h
+  | .decoy _ r, wf, e, h => by
+    simp only [MElems.WF] at wf
+    exact MElems.discs_key_ok r wf e (by simpa [MElems.discs] using h)
+theorem MMems.discs_key_ok : (ms : MMems) → ms.WF → ∀ e ∈ ms.discs, ∀ k, e.key = some k → k ≠ "_sd" ∧ k ≠ "..."
+  | .nil, _, e, h => by simp [MMems.discs] at h
+  | .clear k' x r, wf, e, h => by
+    simp only [MMems.WF] at wf
+    simp only [MMems.discs, List.mem_append] at h
+    rcases h with h | h
+    · exact MJ.discs_key_ok x wf.2.2.1 e h
+    · exact MMems.discs_key_ok r wf.2.2.2.2 e h
+  | .marked k' dg x r, wf, e, h => by
+    simp only [MMems.WF] at wf
+    simp only [MMems.discs, List.mem_cons, List.mem_append] at h
+    rcases h with rfl | h | h
+    · intro k hk
+      simp only [Option.some.injEq] at hk
+      subst hk
+      exact ⟨wf.1, wf.2.1⟩
+    · exact MJ.discs_key_ok x wf.2.2.1 e h
+    · exact MMems.discs_key_ok r wf.2.2.2.2 e h
+end
+
+theorem shapesOk_tblOf (T : MJ) (wf : T.WF) : (sub : List (SDisc × J)) → (∀ p ∈ sub, p.1 ∈ T.discs) →
+    shapesOk (tblOf sub) = .ok ()
+  | [], _ => rfl
+  | p :: r, h => by
+    have hr := shapesOk_tblOf T wf r (fun q hq => h q (by simp [hq]))
+    have hp := h p (by simp)
+    simp only [tblOf, List.map_cons, shapesOk]
+    have hs : shapeOk (discJ p.2 p.1) = .ok () := by
+      unfold discJ
+      cases hk : p.1.key with
+      | none => simp [shapeOk]
+      | some k =>
+        obtain ⟨h1, h2⟩ := MJ.discs_key_ok T wf p.1 hp k hk
+        simp [shapeOk, h1, h2]
+    rw [hs]
+    exact hr
+
+theorem dupFree_tblOf : (sub : List (SDisc × J)) → (sub.map (·.1.digest)).Nodup → dupFree (tblOf sub) = true
+  | [], _ => rfl
+  | p :: r, h => by
+    simp only [List.map_cons, List.nodup_cons, List.mem_map, not_exists, not_and] at h
+    simp only [tblOf, List.map_cons, dupFree, Bool.and_eq_true, Bool.not_eq_true', List.any_eq_false,
+      List.mem_map, decide_eq_true_eq, forall_exists_index, and_imp, forall_apply_eq_imp_iff₂]
+    refine ⟨?_, dupFree_tblOf r h.2⟩
+    intro q hq e
+    exact h.1 q hq e
+
+/-- **T-ref for a selection of the tree's own disclosures.** For every conformant tree with
+pairwise distinct digests and marks, and ANY selection `sub` of its disclosures (each with any
+salt, none under a decoy's digest, no digest twice), in any order: the specification's algorithm
+returns the tree's claims with exactly those marked nodes present whose own and enclosing
+disclosures are selected. -/
+theorem verify_own (T : MJ) (wf : T.WF) (nd : T.digests.Nodup) (ndm : T.allMarks.Nodup)
+    (sub : List (SDisc × J)) (hsub : ∀ p ∈ sub, p.1 ∈ T.discs ∧ p.1.digest ∉ T.deepStale)
+    (hnd : (sub.map (·.1.digest)).Nodup) :
+    verify false T.payload (tblOf sub) =
+      .ok (dropAlgJ (T.project (fun g => sub.any (fun p => p.1.digest = g)))) := by
+  have hndd : (T.discs.map (·.digest)).Nodup := by rw [MJ.discs_digest]; exact ndm
+  have htbl : TblOn T.discs T.deepStale (tblOf sub) := by
+    constructor
+    · intro e he j hj
+      obtain ⟨p, hp, hd, rfl⟩ := lookup_tblOf_some sub _ j hj
+      have : p.1 = e := nodup_map_inj (·.digest) T.discs hndd p.1 (hsub p hp).1 e he hd
+      exact ⟨p.2, by rw [this]⟩
+    · intro g hg
+      exact lookup_tblOf_none sub g (fun p hp e => (hsub p hp).2 (e ▸ hg))
+  have := verify_project T wf nd ndm (tblOf sub) htbl
+    (shapesOk_tblOf T wf sub (fun p hp => (hsub p hp).1)) (dupFree_tblOf sub hnd)
+  rw [this]
+  have hfun : sel (tblOf sub) = fun g => sub.any (fun p => decide (p.1.digest = g)) :=
+    funext (sel_tblOf sub)
+  rw [hfun]
+
 end Ref
